@@ -80,6 +80,7 @@ func c09Alphabet(dates []string) []jr.Dir {
 			jr.T(d, "multi\nline  description", jr.B(accChecking, accFood, "12.340", "CHF")),
 			jr.A(d, jr.Bal{Acc: accChecking, Qty: "100", Com: "CHF"}),
 			jr.A(d, jr.Bal{Acc: accChecking, Qty: "0", Com: "CHF"}),
+			jr.A(d, jr.Bal{Acc: accSavings, Qty: "0", Com: "CHF"}, jr.Bal{Acc: accCard, Qty: "0", Com: "USD"}),
 			jr.A(d, jr.Bal{Acc: accChecking, Qty: "98.50", Com: "CHF"}, jr.Bal{Acc: accCard, Qty: "0", Com: "USD"}),
 			jr.Dir{Kind: jr.Assert, Date: d, MultiLine: true, Bals: []jr.Bal{{Acc: accSavings, Qty: "0", Com: "CHF"}}},
 			jr.P(d, "USD", "0.9", "CHF"),
